@@ -339,7 +339,7 @@ pub fn run(args: &Args) {
         if i < 2 { cx.sum.sample(json!({"min0_history": ops.iter().take(8).map(|(o, a)| json!([o, a.iter().take(6).collect::<Vec<_>>()])).collect::<Vec<_>>()})); }
         min0_history(&mut cx, &ops, false);
     }
-    let nv = if th { 9000 } else { 700 };
+    let nv = if th { 12000 } else { 2000 };
     for i in 0..nv {
         all_types(&mut cx, &mut rng, 0);
         if i % 12 == 0 { all_types(&mut cx, &mut rng, 1); }
